@@ -242,6 +242,7 @@ func C04(ctx *core.Ctx) {
 	}
 
 	c04ReceivedContext(ctx, r)
+	c04StreamAndLoop(ctx, r, enc)
 
 	// ---- S5 ---------------------------------------------------------------------------
 	py := filepath.Join(ctx.RepoDir, "lib/python/frugal/util/headers.py")
